@@ -157,15 +157,17 @@ func (m *multi) NewResponse() proto.Message {
 	return &pb.MultiResponse{}
 }
 
-// DeserializeCellBlocks deserializes action results from cell blocks.
-func (m *multi) DeserializeCellBlocks(msg proto.Message, b []byte) (uint32, error) {
-	mr := msg.(*pb.MultiResponse)
-
-	var nread uint32
+// validateResponse checks that the response, which comes from the network,
+// is consistent with the request: returnResults relies on it.
+func (m *multi) validateResponse(msg proto.Message) error {
+	mr, ok := msg.(*pb.MultiResponse)
+	if !ok {
+		return fmt.Errorf("unexpected response type for Multi: %T", msg)
+	}
 	for _, rar := range mr.GetRegionActionResult() {
 		if e := rar.GetException(); e != nil {
 			if l := len(rar.GetResultOrException()); l != 0 {
-				return 0, fmt.Errorf(
+				return fmt.Errorf(
 					"got exception for region, but still have %d result(s) returned from it", l)
 			}
 			continue
@@ -177,16 +179,44 @@ func (m *multi) DeserializeCellBlocks(msg proto.Message, b []byte) (uint32, erro
 			i := roe.GetIndex()
 
 			if i == 0 {
-				return 0, errors.New("no index for result in multi response")
+				return errors.New("no index for result in multi response")
 			} else if r == nil && e == nil {
-				return 0, errors.New("no result or exception for action in multi response")
+				return errors.New("no result or exception for action in multi response")
 			} else if r != nil && e != nil {
-				return 0, errors.New("got result and exception for action in multi response")
-			} else if e != nil {
+				return errors.New("got result and exception for action in multi response")
+			} else if int64(i) > int64(len(m.calls)) || m.calls[i-1] == nil {
+				// out of range, or a call that wasn't sent because
+				// its context had expired
+				return fmt.Errorf("result for unknown action %d in multi response", i)
+			}
+		}
+	}
+	return nil
+}
+
+// DeserializeCellBlocks deserializes action results from cell blocks.
+func (m *multi) DeserializeCellBlocks(msg proto.Message, b []byte) (uint32, error) {
+	if err := m.validateResponse(msg); err != nil {
+		return 0, err
+	}
+	mr := msg.(*pb.MultiResponse)
+
+	var nread uint32
+	for _, rar := range mr.GetRegionActionResult() {
+		if e := rar.GetException(); e != nil {
+			continue
+		}
+
+		for _, roe := range rar.GetResultOrException() {
+			e := roe.GetException()
+			r := roe.GetResult()
+			i := roe.GetIndex()
+
+			if e != nil {
 				continue
 			}
 
-			c := m.get(i)                     // TODO: maybe return error if it's out-of-bounds
+			c := m.get(i)
 			d := c.(canDeserializeCellBlocks) // let it panic, because then it's our bug
 
 			response := c.NewResponse()
@@ -200,6 +230,9 @@ func (m *multi) DeserializeCellBlocks(msg proto.Message, b []byte) (uint32, erro
 			}
 
 			// TODO: don't bother deserializing if the call's context has already expired
+			if int64(nread) > int64(len(b)) {
+				return 0, errors.New("short read: results refer to more cells than sent")
+			}
 			n, err := d.DeserializeCellBlocks(response, b[nread:])
 			if err != nil {
 				return 0, fmt.Errorf(
@@ -227,12 +260,35 @@ func (m *multi) returnResults(msg proto.Message, err error) {
 
 	mr := msg.(*pb.MultiResponse)
 
+	// Every call gets exactly one result: the server may have repeated
+	// an action or left one out, and a call's result channel only has
+	// room for one result.
+	done := make(map[hrpc.Call]bool, len(m.calls))
+	deliver := func(c hrpc.Call, res hrpc.RPCResult) {
+		if !done[c] {
+			done[c] = true
+			c.ResultChan() <- res
+		}
+	}
+	defer func() {
+		for _, c := range m.calls {
+			if c != nil && !done[c] {
+				deliver(c, hrpc.RPCResult{
+					Error: errors.New("no result for the action in multi response")})
+			}
+		}
+	}()
+
 	// Here we can assume that everything has been deserialized correctly.
 	// Dispatch results to appropriate calls.
 	for i, rar := range mr.GetRegionActionResult() {
 		if e := rar.GetException(); e != nil {
 			// Got an exception for the whole region,
 			// fail all the calls for that region.
+			if i >= len(m.regions) {
+				// more region results than regions in the request
+				continue
+			}
 			reg := m.regions[i]
 
 			err := exceptionToError(*e.Name, string(e.Value))
@@ -241,7 +297,7 @@ func (m *multi) returnResults(msg proto.Message, err error) {
 					continue
 				}
 				if c.Region() == reg {
-					c.ResultChan() <- hrpc.RPCResult{Error: err}
+					deliver(c, hrpc.RPCResult{Error: err})
 				}
 			}
 			continue
@@ -257,9 +313,9 @@ func (m *multi) returnResults(msg proto.Message, err error) {
 			// TODO: don't bother if the call's context has already expired
 
 			if e != nil {
-				c.ResultChan() <- hrpc.RPCResult{
+				deliver(c, hrpc.RPCResult{
 					Error: exceptionToError(*e.Name, string(e.Value)),
-				}
+				})
 				continue
 			}
 
@@ -273,7 +329,7 @@ func (m *multi) returnResults(msg proto.Message, err error) {
 				panic(fmt.Sprintf("unsupported response type for Multi: %T", response))
 			}
 
-			c.ResultChan() <- hrpc.RPCResult{Msg: response}
+			deliver(c, hrpc.RPCResult{Msg: response})
 		}
 	}
 }
